@@ -26,6 +26,12 @@ func init() {
 		c.MustCross("good-deferret", c.P.Func("ctl/flow.DeferRetGood"), "return true", isReturnWith(0, IsConstBool(true)), OnTrue("check", CallTo(check)))
 		c.MustCross("bad-deferret", c.P.Func("ctl/flow.DeferRetBad"), "return true", isReturnWith(0, IsConstBool(true)), OnTrue("check", CallTo(check)))
 	}})
+	registerControl(controlDef{Name: "E2 through a boolean phi (x := a || b; if !x)", Bad: []string{"bad-phior"}, Good: []string{"good-phior"}, Run: func(c *Ctx) {
+		sink := c.P.FuncObj("ctl/flow.sink")
+		ready := c.P.Field("ctl/flow.T.ready")
+		c.MustCross("good-phior", c.P.Func("ctl/flow.PhiOrGood"), "sink", isPlainCallTo(sink), OnFalse("ready", FieldIs(ready)))
+		c.MustCross("bad-phior", c.P.Func("ctl/flow.PhiOrBad"), "sink", isPlainCallTo(sink), OnFalse("ready", FieldIs(ready)))
+	}})
 	registerControl(controlDef{Name: "E3 pairing (defer, explicit, missing)", Bad: []string{"bad-pair"}, Good: []string{"good-pair", "good-pair2"}, Run: func(c *Ctx) {
 		acq := c.P.FuncObj("ctl/flow.acquire")
 		rel := c.P.FuncObj("ctl/flow.release")
